@@ -269,3 +269,46 @@ Proof.
   apply (scan_sound_inv sb_step INV R_sb INV_init INV_step sb_step_ok).
   unfold R_sb. cbn. exact I.
 Qed.
+
+(* ==================================================== c08_kept_until_acked *)
+
+(* while the processor is about to delete / replace an outgoing entry, the packet
+   it received last is the acknowledgement that justifies it; while the dequeuer
+   is about to save, its goroutine has dequeued a message *)
+Definition R_ku (s : bc) (t : ku_st) : Prop :=
+  (match pp s with
+   | PAckDel id => exists g, gproc s = Some g /\
+                     (aget (ku_last t) g = Some (Puback id) \/ aget (ku_last t) g = Some (Pubcomp id))
+   | PRecSave id => exists g, gproc s = Some g /\ aget (ku_last t) g = Some (Pubrec id)
+   | _ => True
+   end) /\
+  (match dp s with
+   | DNextId _ _ | DSave _ _ => exists g, gdeq s = Some g /\ nmem g (ku_deq t) = true
+   | _ => True
+   end).
+
+Lemma ku_frame s s' t t' :
+  pp s' = pp s -> dp s' = dp s -> gproc s' = gproc s -> gdeq s' = gdeq s ->
+  (forall g, gproc s = Some g -> aget (ku_last t') g = aget (ku_last t) g) ->
+  (forall g, nmem g (ku_deq t) = true -> nmem g (ku_deq t') = true) ->
+  R_ku s t -> R_ku s' t'.
+Proof.
+  intros Ep Ed Egp Egd Hl Hd [H1 H2]. unfold R_ku. rewrite Ep, Ed, Egp, Egd. split.
+  - destruct (pp s); try exact I.
+    + destruct H1 as (g & G & A). exists g. split; [exact G|rewrite (Hl g G); exact A].
+    + destruct H1 as (g & G & A). exists g. split; [exact G|rewrite (Hl g G); exact A].
+  - destruct (dp s); try exact I; destruct H2 as (g & G & A); exists g; (split; [exact G|apply Hd; exact A]).
+Qed.
+
+Ltac ku_same_t HR := (eapply ku_frame; [| | | |intros ? ?; reflexivity|intros ? Hx; exact Hx|exact HR]); reflexivity.
+
+Lemma ku_proc s t e s' g : INV s -> R_ku s t -> ev_g e = Some g -> gproc s = Some g -> step_proc s e = Some s' ->
+  exists t', ku_step t e = Some t' /\ R_ku s' t'.
+Proof.
+  intros HI HR Hg Hr H. unfold step_proc, proc_dispatch, die_p, guard in H.
+  inv_step H; inv_helpers; injection H as <-; subst; cbn [ev_g] in Hg; try injection Hg as ->.
+  all: try (cbn [ku_step]; eexists; split; [reflexivity|]; ku_same_t HR).
+  all: try (cbn [ku_step]; eexists; split; [reflexivity|]; destruct HR as [HR1 HR2]; split; bcsimpl; cbn [ku_last ku_deq];
+            try exact I; try exact HR2; fail).
+  all: match goal with |- ?G => idtac G end.
+Abort.
